@@ -6,7 +6,6 @@ import (
 	"go/token"
 	"go/types"
 	"hash/fnv"
-	"sort"
 	"strings"
 
 	"golang.org/x/tools/go/ssa"
@@ -1134,27 +1133,11 @@ func (e *Enc) storeAsserts(fr *Frame, st0 *ssa.Store, v Val, st *State, rb Term)
 		return u.Field(f.Field).Name()
 	}
 	name := fieldName(fa)
-	var sites []*ssa.Store
-	for _, b := range fr.fn.Blocks {
-		for _, in := range b.Instrs {
-			if s2, ok := in.(*ssa.Store); ok {
-				if f2, ok := s2.Addr.(*ssa.FieldAddr); ok && fieldName(f2) == name {
-					sites = append(sites, s2)
-				}
-			}
-		}
-	}
-	sort.SliceStable(sites, func(i, j int) bool { return sites[i].Pos() < sites[j].Pos() })
-	ord := 0
-	for i, s2 := range sites {
-		if s2 == st0 {
-			ord = i + 1
-		}
-	}
 	for k, ca := range fr.contract.Asserts {
-		if ca.Kind != "store" || ca.Callee != name || ca.N != ord {
+		if ca.Kind != "store" || ca.Callee != name || !e.matchCut(fr.fn, ca, st0) {
 			continue
 		}
+		ord := ca.N
 		henv := e.hostEnv(fr)
 		henv.vars["stored"] = v
 		f, watch := e.evalBoolWatch(henv, ca.Clause.Expr, st, fr.entry, ca.Clause)
